@@ -4,9 +4,9 @@
    consistent for ALL streams / tables / block sequences (no size bound). *)
 From Coq Require Import List ZArith Bool.
 From LJT Require Import model.T81Spec model.T81Arith gen.GenAricom proofs.T81StuffProofs proofs.T81ParseProofs proofs.T81LenProofs
-  proofs.T81BlockProofs proofs.T81ScanProofs proofs.T81HuffProofs proofs.T81WriterProofs proofs.T81WrittenProofs proofs.T81ParseInvProofs proofs.T81Examples
+  proofs.T81BlockProofs proofs.T81ScanProofs proofs.T81HuffProofs proofs.T81WriterProofs proofs.T81WrittenProofs proofs.T81CompleteProofs proofs.T81ParseInvProofs proofs.T81Examples
   proofs.T81ArithProofs proofs.T81QMProofs proofs.T81AricomProofs proofs.T81ArithExamples
-  proofs.T81ArithProofsIdeal proofs.T81ArithProofsBytes proofs.T81ArithProofsScan.
+  proofs.T81ArithProofsIdeal proofs.T81ArithProofsBytes proofs.T81ArithProofsScan proofs.T81LosslessProofs.
 Import ListNotations.
 Local Open Scope Z_scope.
 
@@ -49,11 +49,19 @@ Theorem C04_zigzag_roundtrip : forall b, length b = 64%nat -> to_natural (to_zig
 Proof. exact natural_zigzag_id. Qed.
 Print Assumptions C04_zigzag_roundtrip.
 
-(* remaining gap of the full clause: that decoding an emitted valid stream never fails
-   (completeness of the A.2.3/A.2.4 block positions) and that pw is the same for all blocks of
-   a component; both are exercised by the Examples below and the (<-) correspondence *)
-Definition C04_writer_sound_full : Prop := forall ch im s,
+(* (1b'') completeness: for a valid stream (any producer), if the entropy decoding of its scans
+   succeeds then the coefficient arrays can always be assembled -- every component is coded
+   exactly once (B.2.3) and the A.2.3 / A.2.4 block positions of its scan cover all its blocks;
+   hence decoding an emitted valid stream never fails (the former gap C04_writer_sound_full) *)
+Theorem C04_decode_complete : forall s st, stream_ok s = true -> d_walk ds0 (st_segs s) = Some st ->
+  exists arrays, coefs_of_state st = Some arrays.
+Proof. exact decode_complete. Qed.
+Print Assumptions C04_decode_complete.
+
+Theorem C04_writer_sound_full : forall ch im s,
   im_ok im -> layout ch im = Some s -> stream_ok s = true -> exists arrays, t81_decode s = Some arrays.
+Proof. exact writer_sound_full. Qed.
+Print Assumptions C04_writer_sound_full.
 
 (* (2) B.1.1.5 byte stuffing, all byte lists *)
 Theorem C04_stuffing : forall d,
@@ -122,6 +130,32 @@ Theorem C04_length_fields :
   (forall s, seg_ok s = true -> 2 <= len_field s <= 65535).
 Proof. exact length_fields. Qed.
 Print Assumptions C04_length_fields.
+
+(* ---- lossless process (Annex H, SOF3) ---- *)
+(* (12) the Annex H decoder inverts the lossless writer: DIFF modulo 2^16 with SSSS 0..16,
+   prediction from the reconstructed neighbours with the H.1.2.1 start / restart rule, 1-bit
+   padding per restart interval; any predictor, point transform, position order, abstract prefix
+   codes; both sides end with the same sample arrays *)
+Theorem C04_lossless_scan_codec : forall cs ws psv p pt n ivs src coded ds coded', lcoders_ok cs ->
+  Forall (src_ok ws src) ivs ->
+  lenc_intervals cs ws psv p pt n ivs src coded = Some (ds, coded') ->
+  ldec_intervals cs ws psv p pt n ivs ds coded = Some coded'.
+Proof. exact lenc_dec_intervals. Qed.
+Print Assumptions C04_lossless_scan_codec.
+
+(* (13) whole lossless streams: the decoder's segment walker goes through exactly the writer's
+   states (tables, DRI, frame, every scan), for samples in 0 .. 2^16-1 and the concrete Annex C
+   tables of the DHT items; and every sample held in those states is the point-transformed
+   source sample stored at its place *)
+Theorem C04_lossless_writer_decodes : forall im its st segs, lstate_ok st -> limage_ok im -> lits_ok its ->
+  lw_walk im st its = Some segs -> l_walk st segs = Some (lw_final im st its).
+Proof. exact lw_walk_l_walk. Qed.
+Print Assumptions C04_lossless_writer_decodes.
+
+Theorem C04_lossless_samples_agree : forall cs ws psv p pt row0 pos src coded bits coded',
+  lenc_samples cs ws psv p pt row0 pos src coded = Some (bits, coded') -> agree src coded -> agree src coded'.
+Proof. exact lenc_samples_agree. Qed.
+Print Assumptions C04_lossless_samples_agree.
 
 (* ---- arithmetic coding (Annex D, F.1.4 / F.2.4; sequential process SOF9) ---- *)
 (* (6) binarisation and statistics-bin selection (DC difference with conditioning context, AC
